@@ -175,6 +175,14 @@ template <typename T> struct Runner {
         }
         case 13: out({show((*arr[b])[(size_t) op[2]])}); break;
         case 14: out({show(arr[b]->front()), show(arr[b]->back())}); break;
+        case 15: {
+            // the fill value is a reference to an element of the same array
+            auto v = ref[b].v.at((size_t) op[3]);
+            { LogScope ls; arr[b]->resize((size_t) op[2], (*arr[b])[(size_t) op[3]]); }
+            ref[b].v.resize((size_t) op[2], v);
+            out({});
+            break;
+        }
         default: emit({PRE}); break;
         }
     }
